@@ -198,7 +198,7 @@ Fixpoint z85_dec_chunks (fuel : nat) (d : list N) : option (list N) :=
     end
   end.
 
-Definition z85_decode (d : list N) : option (list N) :=
+Definition z85_crate_decode (d : list N) : option (list N) :=
   let len := length d in
   if (len =? 0)%nat then Some []
   else if negb (len mod 5 =? 0)%nat then None
@@ -215,6 +215,18 @@ Definition z85_decode (d : list N) : option (list N) :=
         end
       else Some out
     end.
+
+(* zero85_decode_res (base_ext.rs) after the repair of D39: a text ending in five padding marks is refused
+   before the crate sees it.  The crate's decode_tail computes `4 - diff` in u32 and panics for diff = 5; the
+   mirror [z85_decode_tail] above uses truncated subtraction there, which is why the guard is part of what the
+   word decodes with, and [z85_guard_excludes_underflow] (Proofs/BaseNProofs.v) shows it covers exactly that case. *)
+Definition ends_hash5 (d : list N) : bool :=
+  match rev d with
+  | a :: b :: c :: e :: f :: _ => (a =? 35) && (b =? 35) && (c =? 35) && (e =? 35) && (f =? 35)
+  | _ => false
+  end.
+Definition z85_decode (d : list N) : option (list N) :=
+  if ends_hash5 d then None else z85_crate_decode d.
 
 (* ---------------- base64 (STANDARD: padded, canonical, no trailing bits) ---------------- *)
 Definition b64_alphabet : list N :=
